@@ -20,14 +20,37 @@ Proved here
 * `ctx_props_roundtrip` and the domain theorems — the repaired table is inverse on its domain, the
   domain contains every IEEE format / signed fixed-point format / the integers / the reals with a
   nameable mode, and refuses what FPCore cannot express; `table_legacy_fixed_counterexample`.
-Not proved (partial): loops (`while`, `for`: only the evaluator rules `fpcore_while_rule`,
-`fpcore_for_rule`; the compiled loops are compared on two FPCore evaluators by harness/c12.py), an
-`if` followed by statements (`IfBundling`), tuples/lists, the reader `fpcore_to_fpy` (harness only).
+* round 2 (Model/FPCoreLoops.lean: `compileLB`, the COMPOSITE of the passes `ForBundling`, `WhileBundling`,
+  `IfBundling` and the back end, up to the names of the bundled — `let`-bound — variables):
+  `compile_sound_loops` — the same statement for the subset WITH `while`, `for x in range(round(n))`, one-armed
+  `if`, `if/else` followed by statements, tuple construction and destructuring, for both settings of
+  `unsafe_int_cast` and every order in which the passes may meet the variables of a Python `set`
+  (`OrdOK`); `compile_fun_sound_loops` for a whole function called from Python.  The hypothesis `wsL`
+  (well-scoped) excludes the two shapes the compiler gets wrong — `looptarget_counterexample` (the loop
+  target is assigned in the body: the compiled core has an unbound variable), `looptarget2_counterexample`
+  (the loop target is also defined before the loop and read after it: 15 in FPy, 23 compiled) — both
+  replayed on the real compiler by harness/c12.py (known findings C12-looptarget, C12-looptarget2);
+  `loops_example` runs a program with every construct through both sides, `loops_example_side_conditions`
+  shows the hypotheses hold for it.
+* round 2, the READER (Model/FPCoreRead.lean: `readE`, `Function.from_fpcore` on `let`, `let*`, `if`, `while`, `while*`, `!`
+  over pure operands; fresh names from a counter): `read_sound` — if FPCore evaluates the expression to `v` under the
+  properties in force, the statements read from it followed by `return <result>` return `v` in the core language under
+  the context those properties denote, from every environment in which each FPCore variable in scope is held by its
+  (older, distinct) FPy name; `read_annotation` — a `!` becomes a `with` block of the context denoted by the properties in
+  force UPDATED with the named ones (inherited properties); `read_compile_roundtrip` — the re-read of the compiled core
+  of a source block returns what the source block returns (corollary of `compile_sound_loops` and `read_sound`);
+  `roundtrip_example_source / _core / _reread` (source, compiled core and re-read body agree by evaluation).
+Not proved (partial): `for` over anything but `range(round(n))` (lists, `range(a, b)`, `range(a, b, s)`), lists,
+comparisons other than one order comparison; in the reader: tensors / arrays / `for` (so the round trip covers tuple-free
+programs), a parallel `while` with several variables, a loop condition that needs statements (C12-readwhilecond), the
+binding of the parameters (`read_sound` starts from the related environments).
 Side condition `litsOKL`: the small integer literals the compiler itself writes (tuple indices, the
 `0` of a block without effect) are rounded under the context in force like every FPCore literal and
 must be read back exactly — `lits_example` shows it holds (by evaluation) for the example's contexts.
 -/
 import Fpy.Proof.FPCoreMain
+import Fpy.Proof.FPCoreLAll
+import Fpy.Proof.FPCoreReadAll
 namespace Fpy.Props.C12
 open Fpy Fpy.Lang Fpy.C12
 
@@ -209,6 +232,272 @@ theorem compile_fun_sound (name : String) (params : List String) (body : List SS
           exact hN n hn
     · have : (params.length != args.length) = true := by simpa using hlen
       simp [this] at hrun
+
+/-! ## round 2: loops, one-armed `if`, `if/else` followed by statements, tuples -/
+
+/-- **compile_sound_loops.** A block of the subset with loops that returns `v` in the core language compiles
+(`compileLB`: bundling passes + back end) to an FPCore expression that evaluates to `v`, for every sufficiently
+large fuel, under the property set `P` denoting the active context `C`, in every environment that agrees with the
+source environment on the free variables of the expression.  `G`: the variables defined before the block;
+`wsL`: variables are defined before use, source names are not compiler temporaries, tuple targets are distinct,
+a loop target is neither defined before its loop nor assigned in it; `litsL`: the integer literals the compiler
+writes are read back exactly; `OrdOK`: the set-iteration order of the passes is a reordering. -/
+theorem compile_sound_loops (Φ : Funs) (cfg : Cfg) (hord : OrdOK cfg) (body : List LStmt) (G : List String)
+    (fuel : Nat) (σ : Env) (μ μ' : Heap) (C : Ctx) (v : Val) (E : FExpr) (P : Props) (ρ : Env)
+    (hrun : evalB Φ fuel σ μ C (LStmt.toLangs body) = .ok (.ret v, μ'))
+    (hG : ∀ y, y ∈ G → isTmpL y = false) (hws : LStmt.wsL G body) (hb : Bound G σ)
+    (hcomp : compileLB cfg G body none = some E) (hP : P.toCtx = .ok C) (hlits : LStmt.litsL G P body)
+    (hρ : AgreeL (fvF E) ρ σ) :
+    ∃ N, ∀ n, N ≤ n → eval n ρ P E = .ok v := by
+  have h := (lblock_sound Φ cfg hord fuel body σ μ C (.ret v) μ' hrun G none E ρ P hG hws hb hcomp
+    (fun k hk => by cases hk) hP hlits hρ).2
+  unfold PostL at h
+  exact h.2
+
+/-- … and the source program only ever extends the heap (the list a `range` allocates). -/
+theorem compile_sound_loops_heap (Φ : Funs) (cfg : Cfg) (hord : OrdOK cfg) (body : List LStmt) (G : List String)
+    (fuel : Nat) (σ : Env) (μ μ' : Heap) (C : Ctx) (o : Outcome) (E : FExpr) (P : Props)
+    (hrun : evalB Φ fuel σ μ C (LStmt.toLangs body) = .ok (o, μ'))
+    (hG : ∀ y, y ∈ G → isTmpL y = false) (hws : LStmt.wsL G body) (hb : Bound G σ)
+    (hcomp : compileLB cfg G body none = some E) (hP : P.toCtx = .ok C) (hlits : LStmt.litsL G P body) :
+    ∀ (r : Nat) (l : List Val), μ[r]? = some l → μ'[r]? = some l :=
+  (lblock_sound Φ cfg hord fuel body σ μ C o μ' hrun G none E σ P hG hws hb hcomp
+    (fun k hk => by cases hk) hP hlits (agreeL_refl _ _)).1
+
+/-- the order parameter: the identity and the reversal are reorderings (any permutation is) -/
+theorem ordOK_id (b : Bool) : OrdOK { unsafeInt := b, ord := fun _ l => l } := fun _ _ => ⟨fun _ => Iff.rfl, Nat.le_refl _⟩
+theorem ordOK_reverse (b : Bool) : OrdOK { unsafeInt := b, ord := fun _ l => l.reverse } :=
+  fun _ _ => ⟨fun _ => List.mem_reverse, by simp⟩
+
+theorem bound_foldl : ∀ (l : List (String × Val)) (σ : Env) (x : String),
+    (x ∈ l.map (·.1) ∨ ∃ w, σ.get? x = some w) →
+    ∃ w, (l.foldl (fun s (xv : String × Val) => s.set xv.1 xv.2) σ).get? x = some w := by
+  intro l
+  induction l with
+  | nil =>
+    intro σ x h
+    rcases h with h | h
+    · simp at h
+    · exact h
+  | cons a rest ih =>
+    intro σ x h
+    simp only [List.foldl_cons]
+    apply ih
+    by_cases hx : x = a.1
+    · right; subst hx; exact ⟨a.2, get?_set_self _ _ _⟩
+    · rcases h with h | h
+      · simp only [List.map_cons, List.mem_cons] at h
+        rcases h with h | h
+        · exact absurd h hx
+        · exact Or.inl h
+      · right; obtain ⟨w, hw⟩ := h; exact ⟨w, by rw [get?_set_ne _ _ _ _ hx]; exact hw⟩
+
+/-- **compile_fun_sound_loops**: a call `f(*args)` from Python (no `ctx=`: binary64) of a function of the subset with
+loops, without declared context, returns what the compiled core evaluates to on the same arguments. -/
+theorem compile_fun_sound_loops (cfg : Cfg) (hord : OrdOK cfg) (name : String) (params : List String) (body : List LStmt)
+    (args : List Val) (fuel : Nat) (v : Val) (μ' : Heap) (core : FCore)
+    (hrun : callEntry ⟨[{ name := name, params := params, ctx := none, body := LStmt.toLangs body }]⟩ fuel name args [] none = .ok (v, μ'))
+    (hparams : ∀ y, y ∈ params → isTmpL y = false) (hws : LStmt.wsL params body)
+    (hcomp : compileFunL cfg params none body = some core) (hlits : LStmt.litsL params {} body) :
+    ∃ N, ∀ n, N ≤ n → evalCore n core args = .ok v := by
+  unfold callEntry at hrun
+  simp only [Funs.find?, List.find?, beq_self_eq_true] at hrun
+  unfold compileFunL at hcomp
+  cases hE : compileLB cfg params body none with
+  | none => rw [hE] at hcomp; cases hcomp
+  | some E =>
+    rw [hE] at hcomp
+    simp only at hcomp
+    cases hcomp
+    by_cases hlen : params.length = args.length
+    · simp only [hlen, bne_self_eq_false, Bool.false_eq_true, if_false] at hrun
+      cases hb : evalB ⟨[{ name := name, params := params, ctx := none, body := LStmt.toLangs body }]⟩ fuel
+          ((params.zip args).foldl (fun s (x, v) => s.set x v) []) [] fp64 (LStmt.toLangs body) with
+      | error e => rw [hb] at hrun; cases hrun
+      | ok r =>
+        obtain ⟨o, μ1⟩ := r
+        rw [hb] at hrun
+        cases o with
+        | normal _ => cases hrun
+        | ret w =>
+          simp only at hrun
+          cases hrun
+          have hbound : Bound params ((params.zip args).foldl (fun s (xv : String × Val) => s.set xv.1 xv.2) []) := by
+            intro x hx
+            apply bound_foldl
+            left
+            rw [List.map_fst_zip (by omega)]
+            exact hx
+          obtain ⟨N, hN⟩ := compile_sound_loops _ cfg hord body params fuel _ [] μ' fp64 v E {} _ hb hparams hws hbound hE rfl hlits
+            (agreeL_refl _ _)
+          refine ⟨N, fun n hn => ?_⟩
+          unfold evalCore
+          simp only [hlen, bne_self_eq_false, Bool.false_eq_true, if_false]
+          rw [bindAll_eq_foldl]
+          exact hN n hn
+    · have : (params.length != args.length) = true := by simpa using hlen
+      simp [this] at hrun
+
+/-! ### an example with every construct; the two excluded shapes -/
+
+def cfgU : Cfg := { unsafeInt := true, ord := fun _ l => l }
+def ten : Val := .num (.fv (.fin ⟨false, 0, 10⟩))
+def two : Val := .num (.fv (.fin ⟨false, 1, 1⟩))
+def envL : Env := [("a", ten), ("b", two)]
+/-
+    s = a; k = round(0)
+    while k < round(3): s = s + b; k = k + round(1)          # two carried variables (WhileBundling)
+    for i in range(round(2)): s = s + i
+    if a < s: s = s * b
+    if s < a: z = s; c = a
+    else:     c = b; z = k                                   # two introduced variables (IfBundling)
+    p, q = (z, c)
+    return p - q
+-/
+def loopDemo : List LStmt :=
+  [.assign "s" (.var "a"), .assign "k" (.lit (.q 0 1)),
+   .while_ (.cmp .lt (.var "k") (.lit (.q 3 1)))
+     [.assign "s" (.op .add [.var "s", .var "b"]), .assign "k" (.op .add [.var "k", .lit (.q 1 1)])],
+   .forRange "i" 2 [.assign "s" (.op .add [.var "s", .var "i"])],
+   .if1 (.cmp .lt (.var "a") (.var "s")) [.assign "s" (.op .mul [.var "s", .var "b"])],
+   .ifte (.cmp .lt (.var "s") (.var "a")) [.assign "z" (.var "s"), .assign "c" (.var "a")]
+     [.assign "c" (.var "b"), .assign "z" (.var "k")],
+   .tassign ["p", "q"] (.tuple [.var "z", .var "c"]),
+   .ret (.op .sub [.var "p", .var "q"])]
+
+/-- **loops_example**: both sides return 1 -/
+theorem loops_example :
+    numOf' (evalB ⟨[]⟩ 60 envL [] fp64 (LStmt.toLangs loopDemo)) = some (.fv (.fin ⟨false, 0, 1⟩)) ∧
+    (compileLB cfgU ["a", "b"] loopDemo none).map (fun E => numOf (eval 200 envL {} E)) = some (some (.fv (.fin ⟨false, 0, 1⟩))) := by
+  constructor <;> decide
+
+theorem litsP_fp64 (n : Nat) (h : CtxLits fp64 n) : LitsP {} n := ⟨fp64, rfl, h⟩
+
+/-- the side conditions of `compile_sound_loops` hold for the example (non-vacuity of its hypotheses) -/
+theorem loops_example_side_conditions :
+    LStmt.wsL ["a", "b"] loopDemo ∧ LStmt.litsL ["a", "b"] {} loopDemo ∧ Bound ["a", "b"] envL ∧ OrdOK cfgU := by
+  refine ⟨?_, ?_, ?_, ordOK_id true⟩
+  · simp [loopDemo, LStmt.wsL, LStmt.ws, LStmt.gamma, LStmt.gammaL, LStmt.asgL, LStmt.asg, LExpr.vars, LExpr.varsL, isTmpL, tmpNames]
+  · have h8 : LitsOK {} 12 := ⟨⟨fp64, rfl, by decide⟩, ⟨_, rfl, by decide⟩⟩
+    simp only [loopDemo, LStmt.litsL, LStmt.lits, LStmt.gamma, LStmt.gammaL, LStmt.asgL, LStmt.asg, List.length, and_true, true_and]
+    refine ⟨h8.mono (by decide), h8.mono (by decide), h8.mono (by decide), h8.mono (by decide), h8.mono (by decide)⟩
+  · intro x hx
+    simp only [List.mem_cons, List.not_mem_nil, or_false] at hx
+    rcases hx with rfl | rfl
+    · exact ⟨ten, rfl⟩
+    · exact ⟨two, rfl⟩
+
+/-
+    for i in range(round(3)): i = i + b
+    return a
+-/
+def isUnbound : Except Err Val → Bool | .error .unbound => true | _ => false
+def loopTarget : List LStmt := [.forRange "i" 3 [.assign "i" (.op .add [.var "i", .var "b"])], .ret (.var "a")]
+
+/-- **looptarget_counterexample** (C12-looptarget): the loop target is assigned in the body — the pass takes it for a
+loop-carried variable and initialises it from the (unbound) target: FPy returns `a`, the compiled core fails.  The
+program satisfies every hypothesis of `compile_sound_loops` except the clause of `wsL` that excludes it. -/
+theorem looptarget_counterexample :
+    numOf' (evalB ⟨[]⟩ 60 envL [] fp64 (LStmt.toLangs loopTarget)) = some (.fv (.fin ⟨false, 0, 10⟩)) ∧
+    (compileLB cfgU ["a", "b"] loopTarget none).map (fun E => isUnbound (eval 200 envL {} E)) = some true ∧
+    ¬ LStmt.wsL ["a", "b"] loopTarget := by
+  refine ⟨by decide, by decide, ?_⟩
+  simp [loopTarget, LStmt.wsL, LStmt.ws, LStmt.asgL, LStmt.asg]
+
+/-
+    i = a; s = a
+    for i in range(round(3)): s = s + i
+    return s + i
+-/
+def loopTarget2 : List LStmt :=
+  [.assign "i" (.var "a"), .assign "s" (.var "a"), .forRange "i" 3 [.assign "s" (.op .add [.var "s", .var "i"])],
+   .ret (.op .add [.var "s", .var "i"])]
+
+/-- **looptarget2_counterexample** (C12-looptarget2): the loop target is also defined before the loop and read after it — in
+FPy it keeps the last element (2), in the compiled core the binding made inside the loop body is gone after the loop
+and the OLD value (10) is read: 15 against 23. -/
+theorem looptarget2_counterexample :
+    numOf' (evalB ⟨[]⟩ 60 envL [] fp64 (LStmt.toLangs loopTarget2)) = some (.fv (.fin ⟨false, 0, 15⟩)) ∧
+    (compileLB cfgU ["a", "b"] loopTarget2 none).map (fun E => numOf (eval 200 envL {} E)) = some (some (.fv (.fin ⟨false, 0, 23⟩))) ∧
+    ¬ LStmt.wsL ["a", "b"] loopTarget2 := by
+  refine ⟨by decide, by decide, ?_⟩
+  simp [loopTarget2, LStmt.wsL, LStmt.ws, LStmt.gamma, LStmt.asgL, LStmt.asg, LExpr.vars, LExpr.varsL, isTmpL, tmpNames]
+
+/-! ## round 2: the reader `Function.from_fpcore` -/
+
+/-- **read_sound.** If FPCore evaluates `e` to `v` (environment `ρ`, properties in force `P` denoting the context `C`), then the
+statements the reader produces for `e`, followed by `return <result expression>`, return `v` in the core language under `C` —
+from every environment `σ` in which every FPCore variable in scope (`m`) is held by a distinct name generated before (`RInv`).
+`nm`: any injective supply of fresh names. -/
+theorem read_sound (Φ : Funs) (nm : Nat → String) (hnm : ∀ i j, nm i = nm j → i = j) (e : FExpr) (k : Nat) (m : RMap) (P : Props)
+    (C : Ctx) (ρ σ : Env) (μ : Heap) (n : Nat) (v : Val) (ss : List Stmt) (r : Expr) (k' : Nat)
+    (heval : eval n ρ P e = .ok v) (hread : readE nm k m P e = some (ss, r, k')) (hP : P.toCtx = .ok C)
+    (hI : RInv nm k m ρ σ) :
+    ∃ F, evalB Φ F σ μ C (ss ++ [.ret r]) = .ok (.ret v, μ) := by
+  obtain ⟨_, σ', hrun, _, hval⟩ := read_ok Φ nm hnm n e k m P C ρ σ μ v ss r k' heval hread hP hI
+  exact runs_ret Φ nm hnm hrun (hval σ' (Ext.refl nm k' σ'))
+
+/-- … the names generated before are left alone (the statements only assign fresh names). -/
+theorem read_sound_frame (Φ : Funs) (nm : Nat → String) (hnm : ∀ i j, nm i = nm j → i = j) (e : FExpr) (k : Nat) (m : RMap) (P : Props)
+    (C : Ctx) (ρ σ : Env) (μ : Heap) (n : Nat) (v : Val) (ss : List Stmt) (r : Expr) (k' : Nat)
+    (heval : eval n ρ P e = .ok v) (hread : readE nm k m P e = some (ss, r, k')) (hP : P.toCtx = .ok C)
+    (hI : RInv nm k m ρ σ) :
+    k ≤ k' ∧ ∃ σ' F, evalB Φ F σ μ C ss = .ok (.normal σ', μ) ∧ ∀ j, j < k → σ'.get? (nm j) = σ.get? (nm j) := by
+  obtain ⟨hk, σ', ⟨F, hrun⟩, hext, _⟩ := read_ok Φ nm hnm n e k m P C ρ σ μ v ss r k' heval hread hP hI
+  exact ⟨hk, σ', F, hrun, hext⟩
+
+/-- **read_annotation** (structure): `(! p e)` is read as a `with` block whose context is the one denoted by the properties in
+force UPDATED with `p` — a partial annotation inherits the enclosing properties (C12-readprops). -/
+theorem read_annotation (nm : Nat → String) (k : Nat) (m : RMap) (P p : Props) (e : FExpr) (s : List Stmt) (r : Expr) (k1 : Nat)
+    (C' : Ctx) (h1 : readE nm k m (P.update p) e = some (s, r, k1)) (hC : (P.update p).toCtx = .ok C') :
+    readE nm k m P (.ann p e) = some ([.with (.ctxLit C') none (s ++ [.assign (.var (nm k1)) r])], .var (nm k1), k1 + 1) := by
+  simp only [readE, h1, hC]
+
+/-- the supply `r`, `rr`, `rrr`, … is injective (non-vacuity of the hypothesis on `nm`) -/
+theorem fresh_names_injective : ∀ i j, nmR i = nmR j → i = j := nmR_inj
+
+/-- **read_compile_roundtrip.** The core compiled from a source block that returns `v`, read back, returns `v`: compile
+(`compile_sound_loops`) then read (`read_sound`).  `σ`: the source environment; `σ2`: an environment of the re-read function in
+which every variable of the core in scope is held by its name. -/
+theorem read_compile_roundtrip (Φ : Funs) (cfg : Cfg) (hord : OrdOK cfg) (nm : Nat → String) (hnm : ∀ i j, nm i = nm j → i = j)
+    (body : List LStmt) (G : List String) (fuel : Nat) (σ : Env) (μ μ' : Heap) (C : Ctx) (v : Val) (E : FExpr) (P : Props)
+    (hrun : evalB Φ fuel σ μ C (LStmt.toLangs body) = .ok (.ret v, μ'))
+    (hG : ∀ y, y ∈ G → isTmpL y = false) (hws : LStmt.wsL G body) (hb : Bound G σ)
+    (hcomp : compileLB cfg G body none = some E) (hP : P.toCtx = .ok C) (hlits : LStmt.litsL G P body)
+    (k : Nat) (m : RMap) (ss : List Stmt) (r : Expr) (k' : Nat) (hread : readE nm k m P E = some (ss, r, k'))
+    (σ2 : Env) (μ2 : Heap) (hI : RInv nm k m σ σ2) :
+    ∃ F, evalB Φ F σ2 μ2 C (ss ++ [.ret r]) = .ok (.ret v, μ2) := by
+  obtain ⟨N, hN⟩ := compile_sound_loops Φ cfg hord body G fuel σ μ μ' C v E P σ hrun hG hws hb hcomp hP hlits (agreeL_refl _ _)
+  exact read_sound Φ nm hnm E k m P C σ σ2 μ2 N v ss r k' (hN N (Nat.le_refl _)) hread hP hI
+
+/-
+    x = a + b
+    with binary64 toward zero:
+        y = x * b
+    if x < y: z = x
+    else:     z = y * b
+    return z - y
+-/
+def d64z : CDesc := .ieee 11 64 .rtz .overflow 0
+def rtDemo : List LStmt :=
+  [.assign "x" (.op .add [.var "a", .var "b"]),
+   .with_ d64z [.assign "y" (.op .mul [.var "x", .var "b"])],
+   .ifte (.cmp .lt (.var "x") (.var "y")) [.assign "z" (.var "x")] [.assign "z" (.op .mul [.var "y", .var "b"])],
+   .ret (.op .sub [.var "z", .var "y"])]
+def nmT (k : Nat) : String :=
+  ["r0", "r1", "r2", "r3", "r4", "r5", "r6", "r7", "r8", "r9", "r10", "r11", "r12", "r13", "r14", "r15", "r16", "r17", "r18", "r19"].getD k "rx"
+def envR : Env := [("r0", ten), ("r1", two)]
+
+/-- **roundtrip_example**: the source block, its compiled core and the body re-read from the core return the same number (-12) -/
+theorem roundtrip_example_source :
+    numOf' (evalB ⟨[]⟩ 40 envL [] fp64 (LStmt.toLangs rtDemo)) = some (.fv (.fin ⟨true, 0, 12⟩)) := by decide
+theorem roundtrip_example_core :
+    (compileLB cfgU ["a", "b"] rtDemo none).map (fun E => numOf (eval 60 envL {} E)) = some (some (.fv (.fin ⟨true, 0, 12⟩))) := by
+  decide
+theorem roundtrip_example_reread :
+    (compileLB cfgU ["a", "b"] rtDemo none).bind (fun E => (readE nmT 2 [("a", "r0"), ("b", "r1")] {} E).map
+      (fun x => numOf' (evalB ⟨[]⟩ 60 envR [] fp64 (x.1 ++ [Stmt.ret x.2.1])))) = some (some (.fv (.fin ⟨true, 0, 12⟩))) := by
+  decide
 
 /-! ## the evaluator: an annotation is in force for exactly its sub-expression; loops -/
 
